@@ -79,7 +79,9 @@ def warm_start(
             logger.error("Warm start: No value for variable %s", var)
             raise SystemExit(1)
 
-        state.variables[var] = values
+        # Item assignment converts to the declared type of the variable
+        # (alive and active are stored as integers in the file)
+        state[var] = values
 
     # # Instance variables with default
     # if "alive" not in wvars:
